@@ -138,77 +138,181 @@ def exportable(rep, prog):
 def grouping(rep, prog):
     f = prog.method('pgpy.pgp', 'PGPKey', 'parse')
     rep.saw(fn=f)
-    src = ast.unparse(f.node)
-    # Trust removal before grouping
-    getpkt = [n for n in ast.walk(f.node) if isinstance(n, ast.Assign) and ast.unparse(n.targets[0]) == 'getpkt']
-    ok = len(getpkt) == 1
-    if ok:
-        v = getpkt[0].value
-        ok = isinstance(v, ast.Call) and dotted(v.func) == 'filter' and 'p.header.tag != PacketTag.Trust' in ast.unparse(v.args[0])
-    gb = [n for n in ast.walk(f.node) if isinstance(n, ast.Call) and dotted(n.func) == 'itertools.groupby']
-    ok2 = len(gb) == 1 and ast.unparse(gb[0].args[0]) == 'getpkt'
-    rep.check(ok and ok2, 'C14.3', 'PGPKey.parse', 'trust filter %s; groupby over %s' % (ast.unparse(getpkt[0].value)[:70] if getpkt else None, ast.unparse(gb[0].args[0]) if gb else None),
+    where = f.where
+    gb = [n for n in ast.walk(f.node) if isinstance(n, ast.Call) and dotted(n.func) in ('itertools.groupby', 'groupby')]
+    if len(gb) != 1 or not gb[0].args:
+        raise AnalysisError('PGPKey.parse: expected exactly one itertools.groupby over the packet stream')
+    stream = gb[0].args[0]
+    # ---- Trust packets removed from the stream BEFORE grouping
+    def trust_filtered(expr, depth=0):
+        if depth > 4:
+            return False
+        if isinstance(expr, ast.Name):
+            for n in ast.walk(f.node):
+                if isinstance(n, ast.Assign) and any(isinstance(t, ast.Name) and t.id == expr.id for t in n.targets):
+                    if trust_filtered(n.value, depth + 1):
+                        return True
+            return False
+        if isinstance(expr, ast.Call) and dotted(expr.func) == 'filter' and len(expr.args) == 2 and isinstance(expr.args[0], ast.Lambda):
+            b = expr.args[0].body
+            return isinstance(b, ast.Compare) and len(b.ops) == 1 and isinstance(b.ops[0], ast.NotEq) and \
+                ast.unparse(b.left).endswith('.header.tag') and ast.unparse(b.comparators[0]) == 'PacketTag.Trust'
+        if isinstance(expr, (ast.GeneratorExp, ast.ListComp)):
+            return any(ast.unparse(i).replace(' ', '').endswith('.header.tag!=PacketTag.Trust') for g in expr.generators for i in g.ifs)
+        if isinstance(expr, ast.Call) and dotted(expr.func) == 'iter' and expr.args:
+            return trust_filtered(expr.args[0], depth + 1)
+        return False
+    rep.check(trust_filtered(stream), 'C14.3', 'PGPKey.parse', 'packet stream %s' % ast.unparse(stream)[:80],
               'Trust packets (keyring-local) must be removed from the packet stream before grouping: a Trust packet that opens a group swallows the '
-              'signatures that follow it', where=f.where, expected='getpkt = filter(lambda p: p.header.tag != PacketTag.Trust, ...); groupby(getpkt, ...)')
-    # group key changes exactly on non-signature packets
-    pg = [n for n in ast.walk(f.node) if isinstance(n, ast.ClassDef) and n.name == 'PktGrouper']
-    ok = len(pg) == 1
-    if ok:
-        call = [m for m in pg[0].body if isinstance(m, ast.FunctionDef) and m.name == '__call__']
-        t = ast.unparse(call[0]).replace(' ', '') if call else ''
-        ok = 'ifpkt.header.tag!=PacketTag.Signature:' in t and 'self.last=' in t and t.rstrip().endswith('returnself.last') and 'id(pkt)' in t
-    rep.check(ok, 'C14.3', 'PGPKey.parse.PktGrouper', 'group key', 'a new group starts at every packet that is not a signature, and only there', where=f.where)
-    # skipped groups: only Opaque
-    skip = re.findall(r"if not _\.endswith\((.*?)\)\)", src)
-    rep.check(skip == ["'Opaque'"], 'C14.3', 'PGPKey.parse', 'skipped groups %s' % skip, 'only groups headed by an unknown (opaque) packet are skipped', where=f.where,
-              expected="not _.endswith('Opaque')", found=skip)
-    # attachment of every signature of the group
-    att = [n for n in ast.walk(f.node) if isinstance(n, ast.ListComp) and 'operator.ior' in ast.unparse(n.elt)]
+              'signatures that follow it', where=where, expected='groupby(filter(lambda p: p.header.tag != PacketTag.Trust, ...), ...)')
+    # ---- group key changes exactly on non-signature packets
+    key = next((k.value for k in gb[0].keywords if k.arg == 'key'), gb[0].args[1] if len(gb[0].args) > 1 else None)
+    grouper_cls = [n for n in ast.walk(f.node) if isinstance(n, ast.ClassDef)]
+    ok = False
+    for c in grouper_cls:
+        call = [m for m in c.body if isinstance(m, ast.FunctionDef) and m.name == '__call__']
+        if not call:
+            continue
+        pv = call[0].args.args[1].arg if len(call[0].args.args) > 1 else 'pkt'
+        ifs = [n for n in call[0].body if isinstance(n, ast.If)]
+        rets = [n for n in call[0].body if isinstance(n, ast.Return)]
+        if len(ifs) == 1 and len(rets) == 1 and not ifs[0].orelse and \
+                ast.unparse(ifs[0].test).replace(' ', '') == '%s.header.tag!=PacketTag.Signature' % pv:
+            st = [x for x in ifs[0].body if isinstance(x, ast.Assign)]
+            ok = len(st) == 1 and ast.unparse(st[0].targets[0]) == ast.unparse(rets[0].value) and 'id(%s)' % pv in ast.unparse(st[0].value)
+    rep.check(ok, 'C14.3', 'PGPKey.parse.PktGrouper', 'group key', 'a new group starts at every packet that is not a signature, and only there '
+              '(the key is unique per head packet and is kept for the signatures that follow)', where=where)
+    # ---- which groups are skipped
+    comp = [n for n in ast.walk(f.node) if isinstance(n, (ast.GeneratorExp, ast.ListComp)) and any(x is gb[0] for g in n.generators for x in ast.walk(g.iter))]
+    skipped = None
+    gvar = None
+    if len(comp) == 1:
+        g = comp[0].generators[0]
+        if isinstance(g.target, ast.Tuple) and len(g.target.elts) == 2:
+            kvar, gvar = ast.unparse(g.target.elts[0]), ast.unparse(g.target.elts[1])
+            conds = [ast.unparse(i).replace(' ', '') for i in g.ifs]
+            skipped = conds
+            okc = conds == ["not%s.endswith('Opaque')" % kvar]
+        else:
+            okc = False
+    else:
+        okc = False
+    rep.check(okc, 'C14.3', 'PGPKey.parse', 'skipped groups %s' % skipped, 'only groups headed by an unknown (opaque) packet are skipped', where=where,
+              expected="if not <key>.endswith('Opaque')", found=skipped)
+    # ---- every signature of the group is attached to the head object
+    loopvar = None
+    for n in ast.walk(f.node):
+        if isinstance(n, ast.For) and any(x is comp[0] for x in ast.walk(n.iter)) if comp else False:
+            loopvar = ast.unparse(n.target)
+    att = []
+    for n in ast.walk(f.node):
+        gens = []
+        if isinstance(n, (ast.ListComp, ast.GeneratorExp)):
+            gens = [(g, n.elt) for g in n.generators]
+        elif isinstance(n, ast.For):
+            gens = [(n, None)]
+        for g, elt in gens:
+            it = ast.unparse(g.iter)
+            if loopvar is not None and it == loopvar and 'PGPSignature' in ast.unparse(n):
+                att.append((n, g, elt))
     ok = len(att) == 1
+    detail = None
     if ok:
-        g = att[0].generators[0]
-        ok = ast.unparse(att[0].elt).replace(' ', '') == 'operator.ior(pgpobj,PGPSignature()|sig)' and ast.unparse(g.iter) == 'group' and \
-            [ast.unparse(i).replace(' ', '') for i in g.ifs] == ['notisinstance(sig,Opaque)']
-    rep.check(ok, 'C14.3', 'PGPKey.parse', 'signature attachment %s' % (ast.unparse(att[0])[:120] if att else 'not a single comprehension over the group'),
+        n, g, elt = att[0]
+        sv = ast.unparse(g.target)
+        conds = [ast.unparse(i).replace(' ', '') for i in getattr(g, 'ifs', [])]
+        detail = ast.unparse(n)[:140]
+        if elt is not None:
+            e = ast.unparse(elt).replace(' ', '')
+            m = re.match(r'^operator\.ior\((\w+),PGPSignature\(\)\|%s\)$' % re.escape(sv), e)
+            ok = m is not None and conds == ['notisinstance(%s,Opaque)' % sv]
+        else:
+            body = [ast.unparse(x).replace(' ', '') for x in n.body]
+            ok = len(body) == 1 and re.match(r'^(\w+)\|=PGPSignature\(\)\|%s$' % re.escape(sv), body[0]) is not None and not conds
+            if not ok and len(n.body) == 1 and isinstance(n.body[0], ast.If) and not n.body[0].orelse:
+                t = ast.unparse(n.body[0].test).replace(' ', '')
+                b = [ast.unparse(x).replace(' ', '') for x in n.body[0].body]
+                ok = t == 'notisinstance(%s,Opaque)' % sv and len(b) == 1 and re.match(r'^(\w+)\|=PGPSignature\(\)\|%s$' % re.escape(sv), b[0]) is not None
+    rep.check(ok, 'C14.3', 'PGPKey.parse', 'signature attachment %s' % (detail or 'not a single pass over the group'),
               'every signature packet of a group (except unparseable ones) is attached to the group\'s head - none dropped, merged or de-duplicated',
-              where=f.where, expected='[operator.ior(pgpobj, PGPSignature() | sig) for sig in group if not isinstance(sig, Opaque)]')
-    # filing
-    t = src.replace(' ', '')
-    rep.check('pgpobj=(selfifself._keyisNoneelsePGPKey())|pkt' in t, 'C14.3', 'PGPKey.parse', 'key head', 'a key packet starts a key object (the first one fills self)', where=f.where)
-    rep.check('pgpobj=PGPUID()|pkt' in t, 'C14.3', 'PGPKey.parse', 'uid head', 'a user id / attribute packet starts an identity', where=f.where)
-    rep.check('keys[pgpobj.fingerprint.keyid,pgpobj.is_public]=pgpobj' in t.replace('(', '').replace(')', '') or
-              'keys[(pgpobj.fingerprint.keyid,pgpobj.is_public)]=pgpobj' in t, 'C14.3', 'PGPKey.parse', 'primary filed as a new key',
-              'each primary key packet starts a new key in the result', where=f.where)
-    n_recent = t.count('keys[next(reversed(keys))]|=pgpobj')
+              where=where, expected='[operator.ior(pgpobj, PGPSignature() | sig) for sig in group if not isinstance(sig, Opaque)]')
+    # ---- filing
+    t = ast.unparse(f.node).replace(' ', '')
+    rep.check(re.search(r'=\(selfifself\._keyisNoneelsePGPKey\(\)\)\|\w+', t) is not None, 'C14.3', 'PGPKey.parse', 'key head',
+              'a key packet starts a key object (the first one fills self)', where=where)
+    rep.check(re.search(r'=PGPUID\(\)\|\w+', t) is not None, 'C14.3', 'PGPKey.parse', 'uid head', 'a user id / attribute packet starts an identity', where=where)
+    rep.check(re.search(r'keys\[\(?(\w+)\.fingerprint\.keyid,\1\.is_public\)?\]=\1', t) is not None, 'C14.3', 'PGPKey.parse', 'primary filed as a new key',
+              'each primary key packet starts a new key in the result', where=where)
+    n_recent = len(re.findall(r'keys\[next\(reversed\(keys\)\)\]\|=\w+', t))
     rep.check(n_recent == 2, 'C14.3', 'PGPKey.parse', 'subkeys and identities go to the most recent primary (%d sites)' % n_recent,
-              'subkeys and user ids belong to the primary key that precedes them', where=f.where)
+              'subkeys and user ids belong to the primary key that precedes them', where=where)
+
+
+def _copied_collections(fn):
+    """Collections of `self` whose elements are copied into the result: `for v in self.X[.items()|.values()]: <res> |= copy.copy(v)`
+    (the loop variable may be any name; a tuple target counts when one of its names is copied).  Returns {X: loop node}."""
+    out = {}
+    selfname = fn.params[0]
+    for n in ast.walk(fn.node):
+        if not isinstance(n, ast.For):
+            continue
+        it = n.iter
+        if isinstance(it, ast.Call) and isinstance(it.func, ast.Attribute) and it.func.attr in ('items', 'values') and not it.args:
+            it = it.func.value
+        if not (isinstance(it, ast.Attribute) and isinstance(it.value, ast.Name) and it.value.id == selfname):
+            continue
+        names = {x.id for x in ast.walk(n.target) if isinstance(x, ast.Name)}
+        for st in ast.walk(n):
+            if isinstance(st, ast.AugAssign) and isinstance(st.op, ast.BitOr) and isinstance(st.value, ast.Call) and \
+                    dotted(st.value.func) == 'copy.copy' and st.value.args and isinstance(st.value.args[0], ast.Name) and st.value.args[0].id in names:
+                out[it.attr] = n
+    return out
 
 
 def copies(rep, prog):
     K = prog.cls('pgpy.pgp', 'PGPKey')
     f = K.methods['__copy__']
     rep.saw(fn=f)
-    t = ast.unparse(f.node).replace(' ', '')
-    rep.check('key=super(PGPKey,self).__copy__()' in t, 'C14.4', 'PGPKey.__copy__', 'armor headers via Armorable.__copy__', 'a copy keeps the armor headers', where=f.where)
-    rep.check('key._key=copy.copy(self._key)' in t, 'C14.4', 'PGPKey.__copy__', 'key packet copied', 'a copy has its own key packet', where=f.where)
-    loops = {ast.unparse(n.iter): ' '.join(ast.unparse(x) for x in n.body).replace(' ', '') for n in ast.walk(f.node) if isinstance(n, ast.For)}
-    rep.check('key|=copy.copy(uid)' in loops.get('self._uids', ''), 'C14.4', 'PGPKey.__copy__', 'user ids copied', 'a copy carries every user id and attribute', where=f.where)
-    rep.check('key|=copy.copy(subkey)' in loops.get('self._children.items()', ''), 'C14.4', 'PGPKey.__copy__', 'subkeys copied', 'a copy carries every subkey', where=f.where)
-    sl = loops.get('self._signatures', '')
-    rep.check('key|=copy.copy(sig)' in sl and 'ifsig.embedded:' in sl and 'continue' in sl, 'C14.4', 'PGPKey.__copy__', 'signatures copied (embedded re-derived)',
-              'a copy carries every signature; embedded cross-signatures are re-derived from their binding signature', where=f.where)
+    sup = [c for c in ast.walk(f.node) if isinstance(c, ast.Call) and isinstance(c.func, ast.Attribute) and c.func.attr == '__copy__' and
+           isinstance(c.func.value, ast.Call) and dotted(c.func.value.func) == 'super']
+    rep.check(len(sup) == 1, 'C14.4', 'PGPKey.__copy__', 'armor headers via Armorable.__copy__', 'a copy keeps the armor headers (built through the base class copy)',
+              where=f.where)
+    keyst = [n for n in ast.walk(f.node) if isinstance(n, ast.Assign) and isinstance(n.targets[0], ast.Attribute) and n.targets[0].attr == '_key']
+    rep.check(len(keyst) == 1 and ast.unparse(keyst[0].value) == 'copy.copy(self._key)', 'C14.4', 'PGPKey.__copy__',
+              'key packet: %s' % [ast.unparse(k) for k in keyst], 'a copy has its own copy of the key packet', where=f.where, expected='<copy>._key = copy.copy(self._key)')
+    cols = _copied_collections(f)
+    for attr, what in (('_uids', 'every user id and attribute'), ('_children', 'every subkey'), ('_signatures', 'every signature')):
+        rep.check(attr in cols, 'C14.4', 'PGPKey.__copy__', '%s copied: %s' % (attr, attr in cols), 'a copy carries %s' % what, where=f.where,
+                  expected='for x in self.%s: copy |= copy.copy(x)' % attr, found=sorted(cols))
+    if '_signatures' in cols:
+        # only embedded signatures may be skipped (they are re-derived from their binding signature when it is attached)
+        skips = [n for n in ast.walk(cols['_signatures']) if isinstance(n, ast.If) and any(isinstance(x, ast.Continue) for x in n.body)]
+        v = {x.id for x in ast.walk(cols['_signatures'].target) if isinstance(x, ast.Name)}
+        ok = all(ast.unparse(n.test) in ('%s.embedded' % name for name in v) for n in skips)
+        rep.check(ok, 'C14.4', 'PGPKey.__copy__', 'skipped signatures: %s' % [ast.unparse(n.test) for n in skips],
+                  'only embedded cross-signatures may be left out of a copy', where=f.where)
     A = prog.cls('pgpy.types', 'Armorable')
-    ta = ast.unparse(A.methods['__copy__'].node).replace(' ', '')
-    rep.check('obj=self.__class__()' in ta and 'obj.ascii_headers=self.ascii_headers.copy()' in ta, 'C14.4', 'Armorable.__copy__', 'headers copied', 'armor headers are copied',
-              where=A.where)
+    ac = A.methods['__copy__']
+    outs = Interp(prog, Scenario(inline=noinline)).run(ac)
+    ok = False
+    for s_ in outs:
+        obj = render(s_.ret)
+        st = {p: v for p, v, l, _ in s_.stores}
+        ok = st.get('%s.ascii_headers' % obj) == 'self.ascii_headers.copy()' and any(c[0] == 'self.__class__' for c in s_.calls)
+    rep.check(ok, 'C14.4', 'Armorable.__copy__', 'headers copied into a new object of the same class', 'armor headers are copied', where=ac.where)
     U = prog.cls('pgpy.pgp', 'PGPUID')
-    tu = ast.unparse(U.methods['__copy__'].node).replace(' ', '')
-    rep.check('uid|=copy.copy(self._uid)' in tu and 'forsiginself._signatures:' in tu and 'uid|=copy.copy(sig)' in tu, 'C14.4', 'PGPUID.__copy__', 'packet and signatures',
-              'a copied identity carries its packet and all its signatures', where=U.where)
+    uf = U.methods['__copy__']
+    cols = _copied_collections(uf)
+    pk = [n for n in ast.walk(uf.node) if isinstance(n, ast.AugAssign) and isinstance(n.op, ast.BitOr) and ast.unparse(n.value) == 'copy.copy(self._uid)']
+    rep.check('_signatures' in cols and len(pk) == 1, 'C14.4', 'PGPUID.__copy__', 'packet copied %d, signatures copied %s' % (len(pk), '_signatures' in cols),
+              'a copied identity carries its packet and all its signatures', where=uf.where)
     S = prog.cls('pgpy.pgp', 'PGPSignature')
-    ts = ast.unparse(S.methods['__copy__'].node).replace(' ', '')
-    rep.check('sig=super(PGPSignature,self).__copy__()' in ts and 'sig|=copy.copy(self._signature)' in ts, 'C14.4', 'PGPSignature.__copy__', 'headers and packet',
-              'a copied signature carries its packet', where=S.where)
+    sf = S.methods['__copy__']
+    sup = [c for c in ast.walk(sf.node) if isinstance(c, ast.Call) and isinstance(c.func, ast.Attribute) and c.func.attr == '__copy__' and
+           isinstance(c.func.value, ast.Call) and dotted(c.func.value.func) == 'super']
+    pk = [n for n in ast.walk(sf.node) if isinstance(n, (ast.AugAssign, ast.Assign)) and ast.unparse(n.value) == 'copy.copy(self._signature)']
+    rep.check(len(sup) == 1 and len(pk) == 1, 'C14.4', 'PGPSignature.__copy__', 'headers via base copy %d, packet copied %d' % (len(sup), len(pk)),
+              'a copied signature carries its armor headers and a copy of its packet', where=sf.where)
     SP = prog.cls('pgpy.packet.fields', 'SubPackets')
     cp = SP.methods['__copy__']
     for s in Interp(prog, Scenario(inline=noinline)).run(cp):
@@ -237,20 +341,66 @@ def copies(rep, prog):
             rep.ok('C14.4', '%s.__init__' % cname, 'attributes %s all classified' % sorted(attrs))
 
 
+def _arms(fn):
+    """{class name tested by isinstance(other, X): (test, body)} of the if/elif chain at the top of __or__."""
+    out = {}
+    node = next((n for n in fn.node.body if isinstance(n, ast.If)), None)
+    chain = []
+    while isinstance(node, ast.If):
+        chain.append(node)
+        node = node.orelse[0] if len(node.orelse) == 1 and isinstance(node.orelse[0], ast.If) else None
+    # also a sequence of independent `if isinstance(...)` statements
+    for n in fn.node.body:
+        if isinstance(n, ast.If) and n not in chain:
+            chain.append(n)
+    for n in chain:
+        for c in ast.walk(n.test):
+            if isinstance(c, ast.Call) and dotted(c.func) == 'isinstance' and len(c.args) == 2:
+                names = [dotted(e) for e in (c.args[1].elts if isinstance(c.args[1], ast.Tuple) else [c.args[1]])]
+                for nm in names:
+                    out.setdefault(nm, (n.test, n.body))
+    return out
+
+
+def _has_call(body, func_text, arg_pred=None):
+    for st in body:
+        for c in ast.walk(st):
+            if isinstance(c, ast.Call) and ast.unparse(c.func) == func_text and (arg_pred is None or arg_pred(c)):
+                return True
+    return False
+
+
 def attach(rep, prog):
     K = prog.cls('pgpy.pgp', 'PGPKey')
     f = K.methods['__or__']
-    t = ast.unparse(f.node).replace(' ', '')
-    rep.check('elifisinstance(other,PGPSignature):self._signatures.insort(other)' in t.replace('\n', ''), 'C14.5', 'PGPKey.__or__', 'signature inserted',
+    o = f.params[1]
+    arms = _arms(f)
+    sig = arms.get('PGPSignature')
+    ok = sig is not None and _has_call(sig[1], 'self._signatures.insort', lambda c: ast.unparse(c.args[0]) == o)
+    rep.check(ok, 'C14.5', 'PGPKey.__or__', 'signature arm inserts into self._signatures',
               'a signature is inserted into the key\'s sorted collection (never replacing another)', where=f.where)
-    rep.check("ifother.type==SignatureType.Subkey_Binding:" in t and "other._signature.subpackets['EmbeddedSignature']" in t and 'esig._parent=other' in t and
-              'self._signatures.insort(esig)' in t, 'C14.5', 'PGPKey.__or__', 'embedded signatures extracted',
+    emb = False
+    if sig is not None:
+        for n in [x for st in sig[1] for x in ast.walk(st) if isinstance(x, ast.If)]:
+            if ast.unparse(n.test).replace(' ', '') in ('%s.type==SignatureType.Subkey_Binding' % o, 'SignatureType.Subkey_Binding==%s.type' % o):
+                src = ' '.join(ast.unparse(x) for x in n.body)
+                parent = [x for st in n.body for x in ast.walk(st) if isinstance(x, ast.Assign) and isinstance(x.targets[0], ast.Attribute) and
+                          x.targets[0].attr == '_parent' and ast.unparse(x.value) == o]
+                emb = "%s._signature.subpackets['EmbeddedSignature']" % o in src and bool(parent) and \
+                    _has_call(n.body, 'self._signatures.insort', lambda c: ast.unparse(c.args[0]) == ast.unparse(parent[0].targets[0].value))
+    rep.check(emb, 'C14.5', 'PGPKey.__or__', 'embedded signatures extracted',
               'the cross-signature embedded in a subkey binding is made visible, linked to its binding signature', where=f.where)
-    rep.check('other._parent=self' in t and 'self._children[other.fingerprint.keyid]=other' in t, 'C14.5', 'PGPKey.__or__', 'subkey attached by key id',
-              'a subkey is attached to this key under its own key id', where=f.where)
-    rep.check('other._parent=weakref.ref(self)' in t and 'self._uids.insort(other)' in t, 'C14.5', 'PGPKey.__or__', 'identity attached', 'an identity is linked to and inserted into this key',
-              where=f.where)
+    ka = arms.get('PGPKey')
+    ok = ka is not None and any(ast.unparse(x).replace(' ', '') == '%s._parent=self' % o for st in ka[1] for x in ast.walk(st) if isinstance(x, ast.Assign)) and \
+        any(ast.unparse(x).replace(' ', '') == 'self._children[%s.fingerprint.keyid]=%s' % (o, o) for st in ka[1] for x in ast.walk(st) if isinstance(x, ast.Assign))
+    rep.check(ok, 'C14.5', 'PGPKey.__or__', 'subkey attached under its own key id, parent set', 'a subkey is attached to this key under its own key id', where=f.where)
+    ua = arms.get('PGPUID')
+    ok = ua is not None and any(ast.unparse(x).replace(' ', '') in ('%s._parent=weakref.ref(self)' % o, '%s._parent=self' % o) for st in ua[1] for x in ast.walk(st)
+                                if isinstance(x, ast.Assign)) and _has_call(ua[1], 'self._uids.insort', lambda c: ast.unparse(c.args[0]) == o)
+    rep.check(ok, 'C14.5', 'PGPKey.__or__', 'identity linked and inserted', 'an identity is linked to and inserted into this key', where=f.where)
     U = prog.cls('pgpy.pgp', 'PGPUID')
-    tu = ast.unparse(U.methods['__or__'].node).replace(' ', '')
-    rep.check('ifisinstance(other,PGPSignature):self._signatures.insort(other)' in tu.replace('\n', ''), 'C14.5', 'PGPUID.__or__', 'signature inserted',
-              'a certification is inserted into the identity\'s collection', where=U.where)
+    uf = U.methods['__or__']
+    uo = uf.params[1]
+    sa = _arms(uf).get('PGPSignature')
+    rep.check(sa is not None and _has_call(sa[1], 'self._signatures.insort', lambda c: ast.unparse(c.args[0]) == uo), 'C14.5', 'PGPUID.__or__',
+              'signature inserted', 'a certification is inserted into the identity\'s collection', where=uf.where)
